@@ -24,6 +24,9 @@ type replayRecipe func(w *World, prop string, o *Obligation, rp *Replay) bool
 var replayRecipes = map[string]replayRecipe{}
 
 func runReplay(w *World, prop string, o *Obligation, rp *Replay) {
+	if o.fx == nil {
+		return
+	}
 	fn := displayName(o.fx.Fn)
 	for _, key := range []string{fn + "/" + o.Kind, fn} {
 		if r, ok := replayRecipes[key]; ok {
